@@ -133,7 +133,7 @@ def place(rng, tpl, segs, nl, how):
 # --------------------------------------------------------------------------- checking one error message
 FOUND_RE = [
     (re.compile(r"^unexpected '(.*)'$", re.S), "lex"),
-    (re.compile(r"but found \"(.*)\"$", re.S), "interp"),
+    (re.compile(r"^[a-z ]*expected .*but found \"(.*)\"$", re.S), "interp"),
     (re.compile(r"^unexpected (\S+)$"), "tok"),
     (re.compile(r"^expected .*but found (\S+)$", re.S), "tok"),
 ]
